@@ -49,6 +49,32 @@ PROPS["C06"] = {
     ],
 }
 
+PROC = "./pkg/processor"
+PROPS["C01"] = {
+    "rule": "stateful op lists (<= ~45 ops) over guardian-set updates (size 1..19, overlapping/disjoint membership, own key at "
+            "every position or absent), local observations, own-signature loopbacks delivered when the script says, gossiped "
+            "observations (valid / other digest / non-member / wrong address / bit flips / malformed), inbound signed VAAs (quorum, "
+            "quorum-1, previous set, wrong order, duplicate signer, outsider, garbage, other subset for a stored id), injections, "
+            "cleanup ticks; non-trivial = at least one VAA was stored or broadcast in the case",
+    "assumptions": ["independent verifier refvaa (go-ethereum Ecrecover/Keccak trusted)", "handlers are called directly in the order Processor.Run would call them; the harness owns loopback timing"],
+    "units": [U("TestVerif_C01_Safety", PROC, R(2500), R(20000, shards=16, timeout=1200))],
+}
+PROPS["C02"] = {
+    "rule": "one multiset of events (local observation, own signature, valid observations from members, duplicates, invalid traffic, "
+            "optional set update / peer VAA) executed in two generated orders and judged step by step by a reference model written "
+            "from the statement, plus broad single-order histories; non-trivial = quorum reached with remote signatures involved",
+    "assumptions": ["reference model in harness/node/pkg/processor/run_test.go", "publication is expected at the first *accepted observation* step at which observed && quorum holds"],
+    "units": [U("TestVerif_C02_Model", PROC, R(1500), R(10000, shards=16, timeout=1200)),
+              U("TestVerif_C02_Histories", PROC, R(1500), R(10000, shards=16, timeout=1200))],
+}
+PROPS["C03"] = {
+    "rule": "reachable processor states (C01 generator without cleanup) in which every delivered observation is classified by an "
+            "independent accept predicate; unacceptable ones must leave aggregation map, store and outbound channel untouched, "
+            "acceptable ones must be recorded; non-trivial = case contains a rejected mutated observation and an accepted sibling",
+    "assumptions": ["accept predicate: 65-byte signature recovers over the carried 32-byte hash to the claimed 20-byte address, which is in the applicable set (entry snapshot if the node observed the digest, else current set)"],
+    "units": [U("TestVerif_C03_Observations", PROC, R(2500), R(20000, shards=16, timeout=1200))],
+}
+
 def setup():
     """MANIFEST.setup_cmd: create stubs and warm the build cache for every harness binary."""
     work = os.path.join(vdriver.WORKROOT, "setup-%d" % os.getpid())
